@@ -377,10 +377,29 @@ func mustIdentCache(rc *cache.RepoCache, id entity.Id) *cache.IdentityCache {
 
 // c14Wipe: `git-bug wipe` in several configurations leaves no git-bug ref, configuration or storage.
 func c14Wipe(c *runCtx, gb string) {
-	for _, conf := range []string{"with-user", "no-user", "fetched-never-merged", "removed-locally"} {
+	confs := []string{"with-user", "no-user", "fetched-never-merged", "removed-locally"}
+	// all refs packed by stock git (gc, pack-refs): removal then goes through the packed-refs file, where the
+	// bug and the identity removals of a wipe must not undo each other (a race: several runs)
+	for k := 0; k < c.pick(6, 30); k++ {
+		confs = append(confs, "packed-refs")
+	}
+	for _, conf := range confs {
 		r := c.rng.fork()
 		s := newC14Scene(r, 2)
 		switch conf {
+		case "packed-refs":
+			s.repo.Close()
+			runGB(gb, s.dir, "user", "adopt", string(s.iden.Id()))
+			for k := 0; k < 5; k++ {
+				runGB(gb, s.dir, "user", "new", "-n", fmt.Sprintf("extra %d", k), "-e", "x@example.com", "--non-interactive")
+				runGB(gb, s.dir, "bug", "new", "-t", fmt.Sprintf("extra bug %d", k), "-m", "m")
+			}
+			for _, rm := range s.remotes {
+				runGB(gb, s.dir, "push", rm)
+			}
+			if out, err := exec.Command("git", "-C", s.dir, "pack-refs", "--all").CombinedOutput(); err != nil {
+				panic(fmt.Sprintf("git pack-refs: %v %s", err, out))
+			}
 		case "with-user":
 			s.repo.Close()
 			runGB(gb, s.dir, "user", "adopt", string(s.iden.Id()))
